@@ -570,6 +570,14 @@ FEATURE_INDEPENDENT = {"C01", "C02", "C03", "C04", "C05", "C06", "C07", "C08", "
 
 # properties part of whose code is not under contract: fixed bounded scenarios stand in (labelled bounded)
 ALWAYS_STAND_IN = {"C17": ["blocking_timeout", "blocking_api"]}
+# fixed scenarios that stand in when a property's text is undecided by extraction (besides the schedule explorer)
+_DD = ["dd_cycles", "dd_no_residue", "dd_cycle_first_edge_parked"]
+UNDECIDED_STAND_IN = {
+    "C12": _DD, "C14": _DD, "C15": _DD,
+    "C11": ["identity_and_liveness", "erased_handles", "sends_to_stopped"],
+    "C16": ["erased_handles"], "C20": ["metrics_counts"],
+    "C05": ["lifecycle_basic", "run_err", "start_fail", "stop_err_on_kill", "kill_preempt"],
+}
 
 NOT_APPLICABLE = {
     "C19": "proc-macro token generation (syn/quote) is outside every installed deductive verifier; the runtime half "
